@@ -186,8 +186,11 @@ def _docs_history(rid, opts, same_instance, docs):
     return [{'k': 'MD', 'R': rid, 'opts': opts, 'doc': d} for d in docs]
 
 
-def _build_pair(rid, oi, same_instance, stride, start):
-    names = _PROBE_NAMES
+_BASE_NAMES = [n for n in sorted(D.PROBES) if n not in D.INTERRUPT_PROBES]
+
+
+def _build_pair(rid, oi, same_instance, stride, start, full=True):
+    names = _PROBE_NAMES if full else _BASE_NAMES
     return _docs_history(rid, W.OPTIONS[rid][oi], same_instance, [D.PROBES[names[x]] for x in _walk(len(names), stride, start)])
 
 
@@ -205,9 +208,12 @@ def pair_histories(tier):
     """
     import functools
     import math
-    n = len(_PROBE_NAMES)
     out = []
     for rid in W.RENDERER_IDS:
+        # quick: the interrupt x indentation family is paired with everything under the two renderers that show the parse
+        # most directly (AST, Markdown round trip); under the others only the base probes are paired
+        full = tier == 'thorough' or rid in ('Ast', 'Markdown')
+        n = len(_PROBE_NAMES) if full else len(_BASE_NAMES)
         for oi, opts in enumerate(W.OPTIONS[rid]):
             if tier != 'thorough' and oi > 0:
                 continue
@@ -215,9 +221,9 @@ def pair_histories(tier):
                 for start in range(math.gcd(n, stride)):
                     # quick: each ordered pair in one of the two modes (by stride parity); thorough: in both
                     if tier == 'thorough' or stride % 2 == 1 or opts:
-                        out.append(('pairs_same_instance', functools.partial(_build_pair, rid, oi, True, stride, start)))
+                        out.append(('pairs_same_instance', functools.partial(_build_pair, rid, oi, True, stride, start, full)))
                     if not opts and (tier == 'thorough' or stride % 2 == 0):
-                        out.append(('pairs_separate_calls', functools.partial(_build_pair, rid, oi, False, stride, start)))
+                        out.append(('pairs_separate_calls', functools.partial(_build_pair, rid, oi, False, stride, start, full)))
     return out
 
 
